@@ -143,6 +143,28 @@ Proof.
   - intros a rest. exact (ext_code_load_failure_is_exit1 CODE_FLUSHES c w a rest).
 Qed.
 
+(* what std.extVar can see: when the value to print is known, the session the evaluator ran
+   with carries, in argument order (str, str-file, code, code-file), one binding per external
+   variable under the argument's own name, all names distinct, each made by the matching
+   constructor; and --ext-str k=v binds k to exactly the bytes after the first '=' *)
+Theorem C12_ext_bindings_exact : forall c w s v warned,
+  prepare c w = POk s v warned ->
+  (exists t1 t2 t3 t4,
+    Forall2 (fun a t => ext_str_to_thunk w a = Some t) (c_ext_str c) t1 /\
+    Forall2 (fun a t => ext_str_file_to_thunk w a = Some t) (c_ext_str_file c) t2 /\
+    Forall2 (fun a t => ext_code_to_thunk w lit_ext a = Some t) (c_ext_code c) t3 /\
+    Forall2 (fun a t => ext_code_file_to_thunk w a = Some t) (c_ext_code_file c) t4 /\
+    s_ext s = combine (map vo_var (c_ext_str c)) t1 ++ combine (map vf_var (c_ext_str_file c)) t2 ++
+              combine (map vo_var (c_ext_code c)) t3 ++ combine (map vf_var (c_ext_code_file c)) t4 /\
+    NoDup (map vo_var (c_ext_str c) ++ map vf_var (c_ext_str_file c) ++
+           map vo_var (c_ext_code c) ++ map vf_var (c_ext_code_file c))) /\
+  s_max_stack s = c_max_stack c /\ s_max_trace s = c_max_trace c /\ s_jpath s = rev (c_jpath c) /\
+  (forall k val, ~ In EQ k -> ext_str_to_thunk w (parse_var_opt_val (k ++ EQ :: val)) = Some (ThStr val)).
+Proof.
+  intros c w s v warned H. destruct (prepare_session c w s v warned H) as (ext & He & Hs). subst s. cbn.
+  split; [exact (ext_bindings_exact c w ext He)|]. repeat split. intros k val. exact (ext_str_exact w k val).
+Qed.
+
 (* an input that cannot be read (stdin failure, missing / unreadable file) or loaded: exit 1 and nothing else *)
 Theorem C12_input_failure_is_exit1 : forall c w,
   w_clap_ok w = true -> (c_string c && c_yaml c) = false ->
@@ -211,6 +233,7 @@ Print Assumptions C12_no_trailing_newline_only_last.
 Print Assumptions C12_tla_bind_by_name.
 Print Assumptions C12_tla_bind_permutation.
 Print Assumptions C12_ext_code_lazy.
+Print Assumptions C12_ext_bindings_exact.
 Print Assumptions C12_input_failure_is_exit1.
 Print Assumptions C12_tla_misuse_never_succeeds.
 Print Assumptions C12_var_split_at_first_eq.
